@@ -21,6 +21,7 @@ var registry = map[string]simkit.World{
 	"C11": fsmworld.C11{},
 	"C13": fsmworld.C13{},
 	"C15": fsmworld.C15{},
+	"C16": fsmworld.C16{},
 	"C18": resourceworld.World{},
 	"C19": fsmworld.C19{},
 	"C20": archiveworld.World{},
